@@ -34,6 +34,7 @@ var accelShapes = []string{
 	`\w*@x`, `[^,]*,`, `a*b`, `\s*=`, `[ab]*c+d`, `a*?b`, `\w+:`, `(?>a*)b`,
 	`\w+@\w+\.com`, `[\w-]+\s*=\s*\d+`, `[a-z]+ = [0-9]+;`,
 	`[abc]\d`, `\d+x`, `[a-c]+`, `a|b|c`, `ab|.c`, `a|.`, `(?:a|b)c|d`, `a?b`, `(a)?b`, `(?=ab)a.`, `(?=a)\w+`, `(?!b)\w`, `(?<=a)b`,
+	`[ab]{25}c`, `[ab]{21}cd`, `\w{22}x`, `[a-c]{30}`, `a{25}b`, `[a-z]+(?:@|\d+)[a-z]+(?:\.|,)[a-z]+`, `\w+(?:-|\s+)\w+(?:=|\d)\w+`, `[a-z]+(?:x|[0-9]{2})[a-z]+(?:;|y+)z`,
 	`\bab`, `\Bab`, `a{3}`, `a{2,}b`, `(?:ab){2}`, `(?:ab*){2}`, `(ab*)+c`, `[a-c]{2}d`, `é+a`, `a😀b`,
 }
 
@@ -114,6 +115,15 @@ func accelInputs(r *Rng, p patCase, n int) [][]rune {
 			out = append(out, append(randString(r, al, 2), s...))
 		default:
 			out = append(out, randString(r, append(lits, '\n', ' '), 6))
+		}
+	}
+	if strings.Contains(p.pat, "{2") || strings.Contains(p.pat, "{3") {
+		for _, n := range []int{19, 20, 21, 22, 24, 25, 26, 29, 30, 31} {
+			run := randString(r, []rune{'a', 'b'}, 0)
+			for len(run) < n {
+				run = append(run, Pick(r, []rune{'a', 'b', 'a', 'b', 'c'}[:2+r.Intn(2)]))
+			}
+			out = append(out, append(append(randString(r, []rune{'x', 'a'}, 2), run...), []rune(Pick(r, []string{"c", "cd", "x", "b", "", "cx"}))...))
 		}
 	}
 	out = append(out, nil, []rune{lits[0]})
@@ -339,6 +349,9 @@ func legFacts(c *Ctx) {
 		budget := c.N(120, 600)
 		for k := 0; k < 8; k++ {
 			inputs = append(inputs, randString(c.Rng, al, 12))
+		}
+		if strings.Contains(p.pat, "{2") || strings.Contains(p.pat, "{3") || strings.Contains(p.pat, "(?:") {
+			inputs = append(inputs, accelInputs(c.Rng, p, 12)...)
 		}
 		rtl := p.o.RTL
 		for idx, in := range inputs {
